@@ -13,6 +13,7 @@ class C35(Prop):
                dict(pkg="internal/servers/webrtc", test="TestVerifC35Webrtc"),
                dict(pkg="internal/servers/moq", test="TestVerifC35Moq"),
                dict(pkg="internal/protocols/httpp", test="TestVerifC35Filter"),
+               dict(pkg="internal/servers/srt", test="TestVerifC35Srt"),
                dict(pkg="internal/api", test="TestVerifC35Param", thorough_only=True),
                dict(pkg="internal/core", test="TestVerifC35Core", timeout=1500)]
     n_quick = 240          # per driver (filter/param use half; the core driver scales its own rounds from it)
